@@ -88,6 +88,19 @@ def check(run: Run) -> None:
             c, r = cases[i], res[i]
             run.violation({"src": c["src"], "kind": c["kind"], "follower": c["follower"]}, clause,
                           {"arg": k, "want": expected(c), "got": r.get("got"), "exc": r.get("exc"), "after": r.get("after")})
+    # model-based testing of the real Tokenizer class against TokenSource.tla (synthetic token streams)
+    from .. import toksrc
+
+    for pr in toksrc.conformance(run, 10 if run.tier == "quick" else 13):
+        if pr["kind"] == "drift":
+            run.drift["TokenSource.tla vs Tokenizer class"] = run.drift.get("TokenSource.tla vs Tokenizer class", 0) + 1
+            run.extra.setdefault("drift_examples", [])
+            if len(run.extra["drift_examples"]) < 5:
+                run.extra["drift_examples"].append(pr)
+        elif pr["kind"] == "model_law_violated":
+            run.extra.setdefault("model_law_violated", []).append(pr)
+        else:
+            run.violation({"src": pr["stream"], "kind": "token_source", "calls": pr["calls"]}, "token_source_law_broken_by_real_class", pr["observed"])
     run.rule = "macro programs enumerated by TLC from Macro.tla (call / proc / with / one-line with); distinct = distinct program texts"
     run.assumptions += ["an empty subprocess-macro body may be passed as '' or omitted", "the follower's stand-alone parse (same parser) is the reference for 'code after the macro is unaffected'"]
 
